@@ -219,9 +219,15 @@ func runDepClosure(c *Ctx) {
 	}
 	rule := "dep-closure"
 	c.R.Rule(rule, "every function of the module that the examined code of this property calls (directly, through closures or as a function value) is itself examined by a rule of this check - a helper in another file or package is decided by its own helper rule, re-run here", 0)
+	// roots: the examined functions of the packages the property is anchored in (by directory, so that a function moved
+	// to another file of its package stays a root)
 	files := map[string]bool{}
 	for _, f := range anchorFiles(c.Verif, c.R.Prop) {
-		files[f] = true
+		dir := "."
+		if i := strings.LastIndex(f, "/"); i >= 0 {
+			dir = f[:i]
+		}
+		files[dir] = true
 	}
 	if len(files) == 0 {
 		c.R.Unproven(rule, "(anchors)", "files", "", "the property's anchored files could not be read from properties.jsonl")
@@ -233,7 +239,14 @@ func runDepClosure(c *Ctx) {
 	seen := map[*FuncInfo]bool{}
 	for _, fi := range c.P.Funcs {
 		pos := c.P.Pos(fi.Decl.Pos())
-		if i := strings.LastIndex(pos, ":"); i > 0 && files[pos[:i]] && ex[fi] {
+		if i := strings.LastIndex(pos, ":"); i > 0 {
+			pos = pos[:i]
+		}
+		dir := "."
+		if i := strings.LastIndex(pos, "/"); i >= 0 {
+			dir = pos[:i]
+		}
+		if files[dir] && ex[fi] {
 			seen[fi] = true
 			q = append(q, fi)
 		}
